@@ -161,19 +161,66 @@ Qed.
 Lemma is_load_L : is_load L = true.
 Proof. reflexivity. Qed.
 
+Lemma is_branch_key_eq key : is_branch_key T' key = is_branch_key T key.
+Proof.
+  unfold is_branch_key, T', with_load. simpl.
+  change (replace_dash gk) with gd.
+  destruct (starts_with gd (key ++ [c_dot])) eqn:E; [|reflexivity].
+  apply starts_with_dot in E. rewrite gd_nodot in E. discriminate.
+Qed.
+
+Lemma dotted_ne_gd k f : k ++ [c_dot] ++ f <> gd.
+Proof.
+  intro E. pose proof gd_nodot as H. rewrite <- E in H.
+  rewrite !has_dot_app in H. simpl in H. rewrite orb_true_r in H. discriminate.
+Qed.
+
+Lemma empty_ok_eq key l : empty_ok T' key l = empty_ok T key l.
+Proof.
+  unfold empty_ok. rewrite find_action_with_load.
+  destruct (find_action T key false) as [r|]; [simpl; rewrite !orb_true_r; reflexivity|].
+  destruct (str_eqb gd key) eqn:Ek.
+  - apply str_eqb_spec in Ek. rewrite <- Ek, Hbranch. simpl. rewrite !orb_true_r. reflexivity.
+  - rewrite is_branch_key_eq. reflexivity.
+Qed.
+
+Lemma apply_child_eq key name v : apply_child pv jl T' key name v = apply_child pv jl T key name v.
+Proof.
+  unfold apply_child. rewrite find_action_with_load.
+  destruct (find_action T key false) as [r|]; [reflexivity|].
+  destruct (str_eqb gd key); reflexivity.
+Qed.
+
+Lemma apply_children_eq key name l : apply_children pv jl T' key name l = apply_children pv jl T key name l.
+Proof. unfold apply_children. apply map_opt_ext_in. intros kw _. apply apply_child_eq. Qed.
+
+Lemma apply_below_eq key fv : apply_below pv jl T' key fv = apply_below pv jl T key fv.
+Proof.
+  unfold apply_below. destruct (snd fv); try reflexivity.
+  rewrite empty_ok_eq, apply_children_eq. reflexivity.
+Qed.
+
+Lemma apply_item_eq g fv : apply_item pv jl T' g fv = apply_item pv jl T g fv.
+Proof.
+  unfold apply_item. rewrite find_action_with_load.
+  destruct (find_action T (g ++ [c_dot] ++ fst fv) false) as [r|].
+  - destruct (is_load r); [|reflexivity]. destruct (snd fv) eqn:Ev; rewrite ?apply_below_eq; try reflexivity.
+    destruct (pv s); try reflexivity. apply apply_children_eq.
+  - destruct (str_eqb gd (g ++ [c_dot] ++ fst fv)) eqn:Ek.
+    + apply str_eqb_spec in Ek. symmetry in Ek. contradiction (dotted_ne_gd g (fst fv) Ek).
+    + apply apply_below_eq.
+Qed.
+
 Lemma apply_group_eq g l : apply_group pv jl T' g l = apply_group pv jl T g l.
 Proof.
-  unfold apply_group. apply map_opt_ext_in. intros fv _.
-  rewrite find_action_with_load.
-  destruct (find_action T (g ++ [c_dot] ++ fst fv) false) as [r|]; [reflexivity|].
-  destruct (str_eqb gd (g ++ [c_dot] ++ fst fv)); reflexivity.
+  unfold apply_group. f_equal. apply map_opt_ext_in. intros fv _. apply apply_item_eq.
 Qed.
 
 Lemma load_config_eq g text : load_config pv jl T' g text = load_config pv jl T g text.
 Proof. unfold load_config. destruct (pv text); try reflexivity. apply apply_group_eq. Qed.
 
 Lemma expand_eq k x : expand pv jl T' k x = expand pv jl T k x.
-Proof. unfold expand. destruct x; try reflexivity. rewrite apply_group_eq. reflexivity. Qed.
+Proof. unfold expand. destruct x; try reflexivity. rewrite empty_ok_eq, apply_group_eq. reflexivity. Qed.
 
 Definition not_str (v : val) : bool := match v with VStr _ => false | _ => true end.
 
@@ -250,6 +297,7 @@ Proof.
   unfold apply_top in Et. rewrite H0, find_action_gd in Et.
   unfold expand in Et. destruct (snd kv); simpl in *; try discriminate;
     try (inversion Et; subst; reflexivity).
+  destruct (empty_ok T gd l); [|discriminate].
   destruct (apply_group pv jl T gd l); [|discriminate]. inversion Et; subst. reflexivity.
 Qed.
 
@@ -409,14 +457,6 @@ Proof.
 Qed.
 
 (* ---------------- validation ---------------- *)
-Lemma is_branch_key_eq key : is_branch_key T' key = is_branch_key T key.
-Proof.
-  unfold is_branch_key, T', with_load. simpl.
-  change (replace_dash gk) with gd.
-  destruct (starts_with gd (key ++ [c_dot])) eqn:E; [|reflexivity].
-  apply starts_with_dot in E. rewrite gd_nodot in E. discriminate.
-Qed.
-
 Lemma check_values_leaf_eq c key v :
   key <> gd -> check_values_leaf pv jl T' c key v = check_values_leaf pv jl T c key v.
 Proof.
@@ -428,11 +468,6 @@ Proof.
     + rewrite is_branch_key_eq. reflexivity.
 Qed.
 
-Lemma dotted_ne_gd k f : k ++ [c_dot] ++ f <> gd.
-Proof.
-  intro E. pose proof gd_nodot as H. rewrite <- E in H.
-  rewrite !has_dot_app in H. simpl in H. rewrite orb_true_r in H. discriminate.
-Qed.
 
 Lemma check_values_eq c : clean c -> check_values pv jl T' c = check_values pv jl T c.
 Proof.
